@@ -460,6 +460,20 @@ impl Rewriter {
       let fn_name = original_name.fn_name;
       let replacement_class =
         generics_replacement_map.get(&generic_class_name).unwrap().as_id().unwrap();
+      // The replacement can itself be a specialized generic class (e.g. `T` := `Wrap<Re>` for a
+      // bound `T: HasArea`). Its methods are registered under the unspecialized class name and take
+      // the class type arguments first, exactly like a direct call `Wrap<Re>.area`.
+      let (base_class, class_type_arguments) =
+        self.symbol_table.base_type_name_and_suffix(*replacement_class);
+      let base_fn_name = mir::FunctionName { type_name: base_class, fn_name };
+      if !class_type_arguments.is_empty() && self.original_functions.contains_key(&base_fn_name) {
+        return self.rewrite_non_generic_fn_name(
+          heap,
+          base_fn_name,
+          function_type,
+          class_type_arguments.into_iter().chain(function_type_arguments).collect(),
+        );
+      }
       let rewritten_fn_name = mir::FunctionName { type_name: *replacement_class, fn_name };
       self.rewrite_non_generic_fn_name(
         heap,
